@@ -103,6 +103,7 @@ func VerifyFunc(p *Program, fc *FuncContract, opts VerifyOpts) (rep *FuncReport)
 	}
 	x := NewExec(p)
 	x.top, x.topKey, x.fc = fn, fc.Key(), fc
+	x.fuel = fc.Fuel
 	x.noPanic = (fc.NoPanic || opts.PanicMode) && !opts.NoPanicOff
 	x.panicMode = opts.PanicMode
 	x.panicProps = opts.PanicProps
@@ -184,7 +185,11 @@ func VerifyFunc(p *Program, fc *FuncContract, opts VerifyOpts) (rep *FuncReport)
 	// vacuity: the precondition must be satisfiable
 	cover := x.emit("cover", "requires", st, TrueT, "precondition satisfiable")
 	cover.Expect = "sat"
+	var exitPCs [][]*Term
 	x.runFunction(fn, args, st, 0, "", nil, func(st2 *State, res []*Val) {
+		if len(exitPCs) < 8 {
+			exitPCs = append(exitPCs, append([]*Term(nil), st2.PC...))
+		}
 		post := contractEnv(x, fc, fn, args, st2)
 		post.old = x.pre
 		if len(fc.Results) > 0 {
@@ -222,6 +227,19 @@ func VerifyFunc(p *Program, fc *FuncContract, opts VerifyOpts) (rep *FuncReport)
 			x.frameObligations(st2, post, fc)
 		}
 	})
+	// vacuity: some return of the function must be reachable in the model (a contradictory callee contract, library
+	// assumption or loop invariant would make every path infeasible and every obligation trivially true)
+	if x.aborted == "" {
+		if len(exitPCs) == 0 {
+			x.obs = append(x.obs, &Obligation{Name: x.topKey + "/cover@exit", Kind: "cover", Func: x.topKey, Goal: FalseT, Axioms: x.axioms, Opaque: x.opaque,
+				Note: "a return of the function is reachable (no return path was found)", SpecDefs: x.specDefs, Expect: "sat"})
+		}
+		for i, pc := range exitPCs {
+			// one member per return path explored (up to 8); the group holds if any member is satisfiable
+			x.obs = append(x.obs, &Obligation{Name: fmt.Sprintf("%s/cover@exit#%d", x.topKey, i+1), Kind: "cover", Func: x.topKey, Hyps: pc, Goal: TrueT, Axioms: x.axioms,
+				Opaque: x.opaque, Note: "a return of the function is reachable", SpecDefs: x.specDefs, Expect: "sat", Group: x.topKey + "/cover@exit"})
+		}
+	}
 	if x.aborted != "" {
 		x.obs = append(x.obs, &Obligation{Name: fc.Key() + "/explored", Kind: "tool-limit", Func: fc.Key(), Goal: FalseT, Status: "error", Output: x.aborted})
 	}
@@ -288,6 +306,7 @@ func VerifyLemma(p *Program, lm *Lemma) *FuncReport {
 	rep := &FuncReport{Key: "lemma:" + lm.Name}
 	x := NewExec(p)
 	x.topKey = "lemma:" + lm.Name
+	x.fuel = lm.Fuel
 	x.revealed = map[string]bool{}
 	for _, r := range lm.Reveal {
 		x.revealed[r] = true
@@ -378,6 +397,9 @@ func VerifyLemma(p *Program, lm *Lemma) *FuncReport {
 		o.Axioms = x.axioms
 		o.SpecDefs = x.specDefs
 		o.Hyps = append(append([]*Term(nil), st.PC...), o.Hyps...) // let-definitions
+		if o.Fuel == 0 {
+			o.Fuel = x.fuel
+		}
 	}
 	rep.Obligations = x.obs
 	rep.LemmasUsed = sortedKeys(x.lemmasUsed)
